@@ -1,5 +1,6 @@
 import Modbus.Model.Codec
 import Modbus.Lemmas.Basic
+import Modbus.Lemmas.Coils
 /-
 Encoders collapse to `image ++ buf.drop n`: the wire image of a value, its encodability
 predicate, and the equation every encoder satisfies for every buffer (C12; used by C01–C05, C18, C19).
@@ -46,7 +47,7 @@ def Request.image : Request → Bytes
   | .writeSingleRegister a w => [0x06] ++ be16 a ++ be16 w
   | .writeSingleCoil a s => [0x05] ++ be16 a ++ be16 (boolToU16Coil s)
   | .writeMultipleCoils a c =>
-      [0x0F] ++ be16 a ++ be16 (UInt16.ofNat c.len) ++ [UInt8.ofNat c.packedLen] ++ c.data.take c.packedLen
+      [0x0F] ++ be16 a ++ be16 (UInt16.ofNat c.len) ++ [UInt8.ofNat c.packedLen] ++ c.wire
   | .writeMultipleRegisters a d =>
       [0x10] ++ be16 a ++ be16 (UInt16.ofNat d.len) ++ [UInt8.ofNat (d.len * 2)] ++ d.data
   | .readWriteMultipleRegisters ra q wa d =>
@@ -96,9 +97,9 @@ theorem Request.encode_eq (r : Request) (buf : Bytes) (h : r.Encodable) :
       obtain ⟨h1, h2⟩ := h
       have hc : ¬ c.data.length < c.packedLen := by omega
       simp only [Request.fc, FunctionCode.value, Res.bind'_ok, u8TryFrom_ok h1,
-        Coils.copyBytes, hc, if_false, applyWrites_bind_bind, applyWrites_bind_finish, List.cons_append, List.nil_append]
+        Coils.copyBytes_eq, hc, if_false, applyWrites_bind_bind, applyWrites_bind_finish, List.cons_append, List.nil_append]
       have := applyWrites_image [(0, [0x0F]), (1, be16 a), (3, be16 (UInt16.ofNat c.len)),
-          (5, [UInt8.ofNat c.packedLen]), (6, c.data.take c.packedLen)] buf
+          (5, [UInt8.ofNat c.packedLen]), (6, c.wire)] buf
         (Request.writeMultipleCoils a c).image.length
         (by simp [Tiled]) (by simp [segBytes, Request.image]) hb'
       simpa [segBytes, Request.image] using this
@@ -145,7 +146,7 @@ theorem Request.encodable_of_ok (r : Request) (buf : Bytes) (v : Nat × Bytes)
       · exact ⟨h1, h2⟩
       · exfalso
         have hc : c.data.length < c.packedLen := by omega
-        simp only [Request.encode, Request.pduLen, Res.bind'_ok, u8TryFrom_ok h1, Coils.copyBytes, hc, if_true] at h
+        simp only [Request.encode, Request.pduLen, Res.bind'_ok, u8TryFrom_ok h1, Coils.copyBytes_eq, hc, if_true] at h
         split at h
         · simp at h
         · cases hh : applyWrites buf [(0, [(Request.writeMultipleCoils a c).fc.value]), (1, be16 a)] with
@@ -188,8 +189,8 @@ theorem Request.encodable_of_ok (r : Request) (buf : Bytes) (v : Nat × Bytes)
 /-! ### responses -/
 
 def Response.image : Response → Bytes
-  | .readCoils c => [0x01] ++ [UInt8.ofNat c.packedLen] ++ c.data.take c.packedLen
-  | .readDiscreteInputs c => [0x02] ++ [UInt8.ofNat c.packedLen] ++ c.data.take c.packedLen
+  | .readCoils c => [0x01] ++ [UInt8.ofNat c.packedLen] ++ c.wire
+  | .readDiscreteInputs c => [0x02] ++ [UInt8.ofNat c.packedLen] ++ c.wire
   | .readInputRegisters d => [0x04] ++ [UInt8.ofNat (d.len * 2)] ++ d.data.take (d.len * 2)
   | .readHoldingRegisters d => [0x03] ++ [UInt8.ofNat (d.len * 2)] ++ d.data.take (d.len * 2)
   | .readWriteMultipleRegisters d => [0x17] ++ [UInt8.ofNat (d.len * 2)] ++ d.data.take (d.len * 2)
@@ -227,17 +228,17 @@ theorem Response.encode_eq (r : Response) (buf : Bytes) (h : r.Encodable) :
     | readCoils c =>
       obtain ⟨h1, h2⟩ := h
       have hc : ¬ c.data.length < c.packedLen := by omega
-      simp only [Response.fc, FunctionCode.value, Res.bind'_ok, u8TryFrom_ok h1, Coils.copyBytes, hc, if_false,
+      simp only [Response.fc, FunctionCode.value, Res.bind'_ok, u8TryFrom_ok h1, Coils.copyBytes_eq, hc, if_false,
         applyWrites_bind_bind, applyWrites_bind_finish, List.cons_append, List.nil_append]
-      have := applyWrites_image [(0, [0x01]), (1, [UInt8.ofNat c.packedLen]), (2, c.data.take c.packedLen)] buf
+      have := applyWrites_image [(0, [0x01]), (1, [UInt8.ofNat c.packedLen]), (2, c.wire)] buf
         (Response.readCoils c).image.length (by simp [Tiled]) (by simp [segBytes, Response.image]) hb'
       simpa [segBytes, Response.image] using this
     | readDiscreteInputs c =>
       obtain ⟨h1, h2⟩ := h
       have hc : ¬ c.data.length < c.packedLen := by omega
-      simp only [Response.fc, FunctionCode.value, Res.bind'_ok, u8TryFrom_ok h1, Coils.copyBytes, hc, if_false,
+      simp only [Response.fc, FunctionCode.value, Res.bind'_ok, u8TryFrom_ok h1, Coils.copyBytes_eq, hc, if_false,
         applyWrites_bind_bind, applyWrites_bind_finish, List.cons_append, List.nil_append]
-      have := applyWrites_image [(0, [0x02]), (1, [UInt8.ofNat c.packedLen]), (2, c.data.take c.packedLen)] buf
+      have := applyWrites_image [(0, [0x02]), (1, [UInt8.ofNat c.packedLen]), (2, c.wire)] buf
         (Response.readDiscreteInputs c).image.length (by simp [Tiled]) (by simp [segBytes, Response.image]) hb'
       simpa [segBytes, Response.image] using this
     | readInputRegisters d =>
@@ -297,7 +298,7 @@ theorem Response.encodable_of_ok (r : Response) (buf : Bytes) (v : Nat × Bytes)
         · exact ⟨h1, h2⟩
         · exfalso
           have hc : c.data.length < c.packedLen := by omega
-          simp only [u8TryFrom_ok h1, Res.bind'_ok, Coils.copyBytes, hc, if_true, Res.bind'_panic] at h
+          simp only [u8TryFrom_ok h1, Res.bind'_ok, Coils.copyBytes_eq, hc, if_true, Res.bind'_panic] at h
           cases hh : applyWrites buf [(0, [fc])] with
           | ok b => rw [hh] at h; simp only [Res.bind'_ok] at h; exact Res.bind_const_panic_ne_ok _ _ h
           | err e => rw [hh] at h; simp at h
